@@ -230,6 +230,7 @@ pub fn run(ctx: &Ctx) -> Outcome {
         // the same calls from a thread-local destructor while a thread exits (see exitprobe.rs)
         let mut at_exit = Report::new();
         crate::exitprobe::check("message", MON, &mut at_exit);
+        crate::exitprobe::check_migration("codec", MON, &mut at_exit);
         report.merge(at_exit);
     }
 
